@@ -48,6 +48,9 @@ func dispatchMore(cmd string, args []string) bool {
 	case "lexobs":
 		cmdLexObs(args)
 		return true
+	case "parseobs":
+		cmdParseObs(args)
+		return true
 	case "campaign":
 		cmdCampaign(args)
 		return true
